@@ -32,6 +32,7 @@ def required(tier):
     return {
         "parsers.built_next_to_a_corrupted_cache": 50,
         "grammars.with_layout_rule": 20,
+        "tables_only.deterministic_tables_walked": 300,
         "nontrivial": 3000 if tier == "quick" else 30000,
         "parsers.constructed": 500,
         "parsers.deterministic": 50,
@@ -56,10 +57,41 @@ def run(ctx):
             if not ctx.more():
                 break
             one_grammar(ctx, mon, g, alphabet, maxlen)
+            tables_only(ctx)
     finally:
         mon.uninstall()
     for k, v in mon.c.items():
         ctx.count("lr." + k, v)
+
+
+def tables_only(ctx, k=12):
+    """Exactness at table level on many more (and larger) grammars than the input workload can
+    afford: build the table with the strategies off; if it is deterministic it must offer
+    every action of the canonical LR(1) automaton (else it rejects some sentence)."""
+    rng = ctx.rng
+    for _ in range(k):
+        if not ctx.more():
+            return
+        g = cfg.rand_ok_grammar(rng, nnt=rng.choice([3, 4, 4, 5]), terms=rng.choice(["ab", "abc"]), maxalts=rng.choice([2, 3]), maxlen=3, eps_weight=rng.choice([1, 2, 3]))
+        if g is None:
+            continue
+        text = g.text()
+        for tables in ("LALR", "SLR"):
+            try:
+                with pgx.watchdog(10):
+                    pg = pgx.grammar(text)
+                    parser = pgx.lr(pg, prefer_shifts=False, prefer_shifts_over_empty=False, tables=pgx.LALR if tables == "LALR" else pgx.SLR)
+            except Exception:  # noqa: BLE001  (conflicts: not deterministic; timeouts: skipped)
+                ctx.count("tables_only.not_deterministic_or_refused")
+                continue
+            if not all(len(a) == 1 for st in parser.table.states for a in st.actions.values()):
+                continue
+            ctx.count("tables_only.deterministic_tables_walked")
+            lack = glrwork.missing_valid_action(g, pg, parser.table)
+            if lack:
+                opts = {"prefer_shifts": False, "prefer_shifts_over_empty": False, "tables": tables}
+                ctx.case((text, tables, "table-only"), True)
+                ctx.violation("valid-action-missing", {"grammar": text, "g": g.to_json(), "opts": opts, "table_only": True}, "deterministic %s table: %s" % (tables, lack))
 
 
 def grammar_with_corrupted_cache(text):
@@ -246,6 +278,13 @@ def replay(case, ctx):
     mon.install()
     try:
         o = case["opts"]
+        if case.get("table_only"):
+            pg = pgx.grammar(case["grammar"])
+            parser = pgx.lr(pg, prefer_shifts=False, prefer_shifts_over_empty=False, tables=pgx.LALR if o["tables"] == "LALR" else pgx.SLR)
+            lack = glrwork.missing_valid_action(g, pg, parser.table)
+            if lack:
+                ctx.violation("valid-action-missing", case, lack)
+            return
         tmpd = None
         if case.get("corrupted_cache"):
             pg, tmpd = grammar_with_corrupted_cache(case["grammar"])
